@@ -30,11 +30,12 @@ type Case struct {
 	RulesJS  json.RawMessage `json:"rules"`            // program AST for the monitor
 	Counted  json.RawMessage `json:"counted"`          // the one counted method atom of the program, or {"k":"none"}
 	Stream   []byte          `json:"stream,omitempty"` // variant reloaded-cut: the (truncated) stream itself, loaded as is
-	Other    *World          `json:"other"`            // facts an earlier instance of the same library is run on (variant second)
-	Removed  []string        `json:"removed"`          // rules removed from the library before instantiation
-	Parts    []string        `json:"parts"`            // the same rules split over several resources (variant multi)
-	Variant  string          `json:"variant"`          // fresh | reloaded | reloaded2 | second | multi
-	Calls    []CallCfg       `json:"calls"`            // calls made on the one instance, in order
+	Other    *World          `json:"other"`
+	pre      func()          // scheduler gate: called at every observable point of a call (concurrent replay)            // facts an earlier instance of the same library is run on (variant second)
+	Removed  []string        `json:"removed"` // rules removed from the library before instantiation
+	Parts    []string        `json:"parts"`   // the same rules split over several resources (variant multi)
+	Variant  string          `json:"variant"` // fresh | reloaded | reloaded2 | second | multi
+	Calls    []CallCfg       `json:"calls"`   // calls made on the one instance, in order
 	Profile  string          `json:"profile"`
 	Listener int             `json:"listeners"` // number of listeners (0 = none: no trace but result checked)
 }
@@ -269,6 +270,9 @@ func runCall(c *Case, ci int, kb *ast.KnowledgeBase, em *Emitter, watchdog time.
 	site := 0
 	cancelled := false
 	gate := func(kind string) {
+		if c.pre != nil {
+			c.pre()
+		}
 		site++
 		if cc.CancelAt == site && !cancelled {
 			cancelled = true
